@@ -1420,6 +1420,19 @@ pub fn c11_case(tier: &str, seed: u64, case: u64) -> CaseResult {
 				rng.shuffle(&mut priority);
 				priority.truncate(80);
 			}
+			// segment responses: block hash (32 bytes), then the identifier (height u8, index u64):
+			// extreme heights and odd / huge indices reach the position arithmetic of the
+			// stateless segment validation
+			if m.name.ends_with("seg") && body_len >= 41 {
+				for h in [5u8, 31, 62, 63, 64, 65, 127, 128, 200, 255] {
+					for idx in [0u64, 1, 2, 3, (1 << 32) + 1, u64::MAX] {
+						let mut f = base.clone();
+						f[11 + 32] = h;
+						f[11 + 33..11 + 41].copy_from_slice(&idx.to_be_bytes());
+						priority.push((format!("segid@h{}i{}", h, idx), f));
+					}
+				}
+			}
 			// single bytes anywhere in the body set to tiny values: size / bit-width parameters such
 			// as a proof's edge_bits are one byte wide and only small values reach their lower guards
 			for _ in 0..60 {
@@ -1482,7 +1495,7 @@ pub fn c11_case(tier: &str, seed: u64, case: u64) -> CaseResult {
 				res.runs += 1;
 				res.steps += 1;
 				let kind = what.split('@').next().unwrap_or("").split('[').next().unwrap_or("").split('=').next().unwrap_or("").to_string();
-				if !kind.starts_with("count") && !kind.starts_with("length") && !kind.starts_with("smallbyte") {
+				if !kind.starts_with("count") && !kind.starts_with("length") && !kind.starts_with("smallbyte") && !kind.starts_with("segid") {
 					res.fault(&format!("mutation:{}", kind));
 				}
 				res.run_digests.push((fnv64(&f), true));
